@@ -136,9 +136,13 @@ func checkC04(c *Case, r *Rec) error {
 			})
 		}
 		return nil
-	case "ugc-complete":
+	case "ugc-complete", "ugc-complete-strict-replay":
 		out := bluemonday.UGCPolicy().Sanitize(in)
 		affected, err := sameModuloForced(ugcModel, in, out)
+		if err != nil && !strings.HasSuffix(c.Kind, "strict-replay") && hasEmptyFragmentURL(in) && knownClassEnabled("C04", "url_with_empty_fragment") {
+			r.Excluded("url_with_empty_fragment")
+			return nil
+		}
 		if err != nil {
 			return violation(out, "C04(complete): %v", err)
 		}
